@@ -144,6 +144,8 @@ const HOSTS: &[(&str, HostKind)] = &[
 /// character more or less on either side (non-special schemes: `Url::domain()` answers for them)
 const SCHEMES: &[&str] = &["https", "HTTPS", "http", "ws", "wss", "ftp", "httpsx", "https2", "https-x", "https+unix", "xhttps", "htt", "s"];
 const PORTS: &[&str] = &["", ":443", ":8443"];
+/// schemes that wrap or quote another URL
+const WRAPPERS: &[&str] = &["blob:", "BLOB:", "filesystem:", "view-source:", "jar:", "about:", "data:text/html,", "javascript:", "intent:", "android-app:", "blob:blob:"];
 
 pub fn dict_hosts() -> Vec<String> {
     let mut v = vec![];
@@ -509,6 +511,23 @@ pub fn cases(w: &World, tier: Tier) -> Vec<Case> {
             }
             let bare = host.trim_start_matches('[').trim_end_matches(']');
             push("android", bare.to_string(), rp.clone(), false);
+        }
+    }
+    // URLs whose scheme wraps another URL (the url crate computes a tuple origin for `blob:` from the
+    // inner URL), and opaque-origin schemes that merely carry a host-like text: none has a host of
+    // its own, so none may be accepted
+    for host in ["example.com", "www.example.com", "a.b.example.com", "www.example.co.uk", "co.uk", "localhost", "foo.localhost", "127.0.0.1", "user.github.io", "host.corp", "www.xn--55qx5d.cn"] {
+        for wrapper in WRAPPERS {
+            for inner in ["https", "http"] {
+                let origin = format!("{wrapper}{inner}://{host}/5b1d0b5e-8a53-4a0c-9d5f-0d2b7f0f3a11");
+                let mut rps = vec![None, Some(host.to_string())];
+                if let Some((_, parent)) = host.split_once('.') {
+                    rps.push(Some(parent.to_string()));
+                }
+                for rp in rps {
+                    push("web", origin.clone(), rp, false);
+                }
+            }
         }
     }
     // host names built from the constants dictionary: every literal in the client and
